@@ -200,6 +200,51 @@ fn cases(rng: &mut Rng, thorough: bool) -> Vec<Req> {
         v.push(get("wild", &format!("/wild/7/{}", m)));
     }
 
+    // ---------------------------------------------------------------- chunked framing gone wrong
+    // A body that cannot be de-chunked cannot be decoded into anything: a 4xx, on every
+    // endpoint that reads its body, whatever the reason the coding is broken.
+    let good_json: &[u8] = br#"{"id":12,"s":"x","o":true,"e":"Red"}"#;
+    let broken: Vec<Vec<u8>> = {
+        let n = good_json.len();
+        let hexn = format!("{:x}", n);
+        let mut v: Vec<Vec<u8>> = Vec::new();
+        let cat = |parts: &[&[u8]]| -> Vec<u8> { parts.concat() };
+        // not a size
+        v.push(cat(&[b"zz\r\n", good_json, b"\r\n0\r\n\r\n"]));
+        v.push(cat(&[b"-1\r\n", good_json, b"\r\n0\r\n\r\n"]));
+        v.push(cat(&[b"0x", hexn.as_bytes(), b"\r\n", good_json, b"\r\n0\r\n\r\n"]));
+        v.push(cat(&[b"\r\n", good_json, b"\r\n0\r\n\r\n"]));
+        v.push(cat(&[b" ", hexn.as_bytes(), b"\r\n", good_json, b"\r\n0\r\n\r\n"]));
+        // a size no integer type holds
+        v.push(cat(&[b"fffffffffffffffffffff\r\n", good_json, b"\r\n0\r\n\r\n"]));
+        // the size line ends in something else than CRLF
+        v.push(cat(&[hexn.as_bytes(), b"\n", good_json, b"\r\n0\r\n\r\n"]));
+        v.push(cat(&[hexn.as_bytes(), b"\r", good_json, b"\r\n0\r\n\r\n"]));
+        v.push(cat(&[hexn.as_bytes(), b"\rX", good_json, b"\r\n0\r\n\r\n"]));
+        // no CRLF after the chunk data
+        v.push(cat(&[hexn.as_bytes(), b"\r\n", good_json, b"0\r\n\r\n"]));
+        v.push(cat(&[hexn.as_bytes(), b"\r\n", good_json, b"XX0\r\n\r\n"]));
+        v.push(cat(&[hexn.as_bytes(), b"\r\n", good_json, b"\n\n0\r\n\r\n"]));
+        // the size is one short: the rest of the data stands where the next size belongs
+        v.push(cat(&[format!("{:x}", n - 1).as_bytes(), b"\r\n", good_json, b"\r\n0\r\n\r\n"]));
+        // garbage where the next size belongs, after a good first chunk
+        v.push(cat(&[b"5\r\n", &good_json[..5], b"\r\nnot-a-size\r\n", &good_json[5..], b"\r\n0\r\n\r\n"]));
+        v.push(cat(&[b"5\r\n", &good_json[..5], b"\r\n;ext\r\n", &good_json[5..], b"\r\n0\r\n\r\n"]));
+        v
+    };
+    for w in &broken {
+        for (ep, method, target, ct) in [
+            ("j2", "POST", &b"/j2"[..], Some(&b"application/json"[..])),
+            ("raw", "PUT", &b"/raw"[..], None),
+            ("stream", "PUT", &b"/stream"[..], None),
+            ("form", "POST", &b"/form"[..], Some(&b"application/x-www-form-urlencoded"[..])),
+        ] {
+            let mut r = req(ep, method, target, ct, Framing::BadCh, w);
+            r.meta = "broken-chunked".into();
+            v.push(r);
+        }
+    }
+
     // ---------------------------------------------------------------- query
     let base: Vec<(&str, &str)> = vec![("n", "5"), ("s", "x"), ("b", "true"), ("e", "Red"), ("i", "-3"), ("c", "z")];
     let build = |pairs: &[(String, String)]| -> String {
